@@ -61,32 +61,105 @@ def canon_state(x):
 
 
 def build_paths(edges, rng, max_len, max_paths):
-    """Adds a virtual root in front of the (several) initial states and covers every edge."""
+    """Edge cover of the exported graph (several initial states) by paths of at most max_len
+    calls, each starting in an initial state.  Greedy walk through uncovered edges; when the walk
+    is stuck it moves on through already covered edges to a nearby state (<= 3 steps) that still
+    has uncovered out-edges, so paths get long and few (every path costs a fresh chain + wallet
+    and up to two real-time ticks)."""
     edges = [e for e in edges]        # parse (vlib keeps the raw JSON text)
+    sid = {}; states = []
+    def ident(st):
+        k = vlib.canon(st)
+        v = sid.get(k)
+        if v is None:
+            v = sid[k] = len(states); states.append(st)
+        return v
+    E = []; seen = set()
     for e in edges:
         e["from"] = canon_state(e["from"]); e["to"] = canon_state(e["to"])
         e["reply"] = canon_state(e["reply"]); e["obs"] = canon_state(e["obs"])
-    tos = {vlib.canon(e["to"]) for e in edges if vlib.canon(e["to"]) != vlib.canon(e["from"])}
-    inits = {}
-    for e in edges:
-        k = vlib.canon(e["from"])
-        if k not in tos and k not in inits:
-            inits[k] = e["from"]
-    root = {"root": True}
-    virt = [{"from": root, "act": {"op": "Init"}, "reply": {}, "to": s, "obs": {}} for s in inits.values()]
-    paths = vlib.path_cover(virt + edges, max_paths=None, rng=rng, max_len=max_len + 1)
-    out = []
+        f, t = ident(e["from"]), ident(e["to"])
+        k = (f, vlib.canon(e["act"]), vlib.canon(e["reply"]), t)
+        if k in seen:
+            continue
+        seen.add(k)
+        E.append((f, t, e))
+    succ = {}
+    has_in = set()
+    for j, (f, t, e) in enumerate(E):
+        succ.setdefault(f, []).append(j)
+        if f != t:
+            has_in.add(t)
+    inits = [i for i in range(len(states)) if i in succ and i not in has_in]
+    # BFS tree from the initial states
+    parent = {i: None for i in inits}
+    order = list(inits)
+    for s0 in order:
+        for j in succ.get(s0, []):
+            t = E[j][1]
+            if t not in parent:
+                parent[t] = j; order.append(t)
+    def prefix(s0):
+        p = []
+        while parent[s0] is not None:
+            j = parent[s0]; p.append(j); s0 = E[j][0]
+        p.reverse()
+        return p
+    covered = [False] * len(E)
+    open_out = {s0: sum(1 for j in js) for s0, js in succ.items()}     # uncovered out-edges per state
+    def take(j, p):
+        p.append(j)
+        if not covered[j]:
+            covered[j] = True; open_out[E[j][0]] -= 1
+    def nearby(cur, radius):
+        """shortest edge list (<= radius) from cur to a state with uncovered out-edges"""
+        frontier = [(cur, [])]; seen_s = {cur}
+        for _ in range(radius):
+            nxt = []
+            for s0, pth in frontier:
+                for j in succ.get(s0, []):
+                    t = E[j][1]
+                    if t in seen_s:
+                        continue
+                    seen_s.add(t)
+                    if open_out.get(t, 0) > 0:
+                        return pth + [j]
+                    nxt.append((t, pth + [j]))
+            frontier = nxt
+        return None
+    todo = list(range(len(E)))
+    rng.shuffle(todo)
+    paths = []
+    for j0 in todo:
+        if covered[j0] or E[j0][0] not in parent:
+            continue
+        p = []
+        for j in prefix(E[j0][0]):
+            take(j, p)
+        take(j0, p)
+        cur = E[j0][1]
+        while len(p) < max_len:
+            nxt = [j for j in succ.get(cur, []) if not covered[j]]
+            if nxt:
+                j = rng.choice(nxt)
+                take(j, p); cur = E[j][1]
+                continue
+            hop = nearby(cur, 3)
+            if hop is None or len(p) + len(hop) >= max_len:
+                break
+            for j in hop:
+                take(j, p)
+            cur = E[p[-1]][1]
+        paths.append(p)
+    total = len(E)
+    if max_paths and len(paths) > max_paths:
+        rng.shuffle(paths)
+        paths = paths[:max_paths]
+    cov = set()
     for p in paths:
-        assert p[0]["act"]["op"] == "Init"
-        if len(p) > 1:
-            out.append(p[1:])
-    total = len({vlib.canon([e["from"], e["act"], e["to"]]) for e in edges})
-    if max_paths and len(out) > max_paths:
-        rng.shuffle(out)
-        out = out[:max_paths]
-    covered = len({vlib.canon([e["from"], e["act"], e["to"]]) for p in out for e in p})
-    nstates = len({vlib.canon(e["from"]) for e in edges} | {vlib.canon(e["to"]) for e in edges})
-    return out, len(inits), total, covered, nstates
+        cov.update(p)
+    out = [[E[j][2] for j in p] for p in paths]
+    return out, len(inits), total, len(cov), len(states)
 
 
 def to_path_input(p):
@@ -205,6 +278,8 @@ def validate_file(wd, path, tag, verdict, kind):
         sig = "%s:%s:%s:%s" % (kind, ev.get("op"), ev.get("r", "-"), r.violated or "unexplained")
         if ev.get("op") == "Fund" and ev.get("r") == "ok" and not ev.get("cons", True):
             sig = "%s:Fund:not-conserved" % kind
+        if ev.get("op") == "Bcast" and ev.get("r") == "rej" and ev.get("misordered"):
+            sig = "%s:Bcast:parent-order" % kind
         verdict.add({"sig": sig,
                      "desc": "TLC rejects event %d of %s (options %s): %s (violated: %s)" %
                              (consumed - start, hdr.get("tag"), json.dumps(hdr.get("cfg")), json.dumps(ev), r.violated or "no WalletFund action explains it"),
@@ -353,7 +428,7 @@ def selftest():
         % (len(go_side), st["tv"]["rejected"], "ok" if ok1 else "FAILED"))
     # corrupted traces
     ok2 = True
-    res = vlib.go_run(binary, "TestSessions", wd, env={"VERIF_SESSIONS": 6, "VERIF_WORKERS": 1})
+    res = vlib.go_run(binary, "TestSessions", wd, env={"VERIF_SESSIONS": 16, "VERIF_WORKERS": 8, "VERIF_SHARDS": 1})
     p = os.path.join(wd, "walletfund-s-0.ndjson")
     good = open(p).read().splitlines()
 
@@ -361,7 +436,7 @@ def selftest():
         q = os.path.join(wd, "walletfund-x-0.ndjson")
         open(q, "w").write("\n".join(lines) + "\n")
         v2 = vlib.Verdict("C07-selftest"); v2.findings = []
-        _, rej, _, rep = validate_file(wd, q, "selftest_" + tag, v2, "trace")
+        _, rej, _, rep = validate_file(wd, q, "selftest_" + re.sub(r"[^A-Za-z0-9]+", "_", tag)[:30], v2, "trace")
         os.remove(q)
         return rej, rep
     rej0, rep0 = check(good, "good")
@@ -391,8 +466,16 @@ def selftest():
     ok2 &= corrupt("pool verdict", lambda e: e["op"] == "Bcast" and e["r"] == "acc", lambda e: e.__setitem__("r", "rej"))
     ok2 &= corrupt("successful Fund turned into NotEnoughFunds", lambda e: e["op"] == "Fund" and e["r"] == "ok" and not e["dup"],
                    lambda e: e.update(r="nef", d=[]))
-    ok2 &= corrupt("NotEnoughFunds amount lowered to an affordable one", lambda e: e["op"] == "Fund" and e["r"] == "nef" and not e["unc"] and e["amt"] > 3,
-                   lambda e: e.__setitem__("amt", 1))
+    # a NotEnoughFunds reply for an amount the wallet could afford (the preceding Obs shows how much)
+    prev = {}
+    def affordable(e):
+        ok = e["op"] == "Fund" and e["r"] == "nef" and not e["unc"] and prev.get("op") == "Obs" and prev.get("sp", 0) >= 1
+        prev.clear(); prev.update(e)
+        return ok
+    sp_before = {}
+    def lower(e):
+        e["amt"] = 1
+    ok2 &= corrupt("NotEnoughFunds amount lowered to an affordable one", affordable, lower)
     ok2 &= corrupt("Release event (dropped hookless observation)", lambda e: e["op"] == "Release", lambda e: e.__setitem__("op", "Obs") or e.update(sp=0, conf=0, imm=0, unc=0, list=[]))
     # named deviations must violate the invariants in TLC
     ok3 = True
